@@ -586,7 +586,26 @@ func BuildVariant(v V, seed int) any {
 		}
 	}
 	n := 0
-	return buildVariant(v, seed, &n)
+	c := buildVariant(v, seed, &n)
+	if seed != 0 && mix(seed, 4243)%8 == 0 {
+		// an eighth of the seeds: what the caller gets is a Clone of the container that was built (a deep
+		// copy is one more way for a container to come into being; summaries kept next to the content must
+		// be right in the copy as well)
+		var cl any
+		if _, panicked := catch(func() {
+			switch x := c.(type) {
+			case at.List:
+				cl = x.Clone()
+			case at.Object:
+				cl = x.Clone()
+			}
+		}); !panicked && cl != nil {
+			if got, err := Snap(cl); err == nil && EqVBits(got, v) {
+				return cl
+			}
+		}
+	}
+	return c
 }
 
 // buildByParsing returns the container the library's parser builds for the JSON text of v, or nil if
